@@ -51,6 +51,39 @@ func New() *Store {
 		Set: map[string]map[string]bool{}, ZSet: map[string]map[string]float64{}}
 }
 
+// Clone returns a deep copy.
+func (st *Store) Clone() *Store {
+	n := New()
+	for k, v := range st.KV {
+		n.KV[k] = v
+	}
+	for k, v := range st.List {
+		n.List[k] = append([]string{}, v...)
+	}
+	for k, v := range st.Hash {
+		m := map[string]string{}
+		for f, x := range v {
+			m[f] = x
+		}
+		n.Hash[k] = m
+	}
+	for k, v := range st.Set {
+		m := map[string]bool{}
+		for f, x := range v {
+			m[f] = x
+		}
+		n.Set[k] = m
+	}
+	for k, v := range st.ZSet {
+		m := map[string]float64{}
+		for f, x := range v {
+			m[f] = x
+		}
+		n.ZSet[k] = m
+	}
+	return n
+}
+
 func bulk(s string) interface{} { return []byte(s) }
 
 func sortedKeys(m map[string]string) []string {
